@@ -172,6 +172,7 @@ class Interp:
         self._mod_cache: dict[tuple[str, str], Any] = {}
         self._int_enums: dict[str, dict[str, IntSym]] = {}
         self._noop = Obj(None, {}, label="logger")
+        self._memo: dict[tuple, Any] = {}
         self._exc_mro: dict[str, tuple[str, ...]] = {}
         self.ignore_calls: set[str] = {"_griffe.logger.logger"}
         self.ext_handlers: dict[str, Callable[..., Any]] = {}
@@ -211,6 +212,15 @@ class Interp:
     def _invoke(self, fn: FunctionInfo, args: list[Any], kwargs: dict[str, Any], closure_env: Env | None) -> Any:
         if fn.qualname in self.stubs:
             return self.stubs[fn.qualname](self, *args, **kwargs)
+        if any(d.split(".")[-1] in ("cache", "lru_cache") for d in fn.decorators):
+            # functools memoisation: one result object per argument tuple (abstract objects are compared by identity)
+            mk = (fn.qualname, tuple(id(a) if isinstance(a, Obj) else repr(a) for a in args), tuple(sorted((k, id(v) if isinstance(v, Obj) else repr(v)) for k, v in kwargs.items())))
+            if mk not in self._memo:
+                self._memo[mk] = (self._invoke_body(fn, args, kwargs, closure_env), args, kwargs)  # keeping the arguments alive keeps their ids unique
+            return self._memo[mk][0]
+        return self._invoke_body(fn, args, kwargs, closure_env)
+
+    def _invoke_body(self, fn: FunctionInfo, args: list[Any], kwargs: dict[str, Any], closure_env: Env | None) -> Any:
         self.depth += 1
         if self.depth > self.max_depth:
             self.depth -= 1
@@ -787,7 +797,10 @@ class Interp:
                 if ms:
                     m = ms[0]
                     if m.is_property:
-                        return self._invoke(m, [obj], {}, None)
+                        v = self._invoke(m, [obj], {}, None)
+                        if any(d.split(".")[-1] == "cached_property" for d in m.decorators):
+                            obj.attrs[attr] = v  # functools.cached_property: the first value sticks to the instance
+                        return v
                     if "staticmethod" in m.decorators:
                         return m
                     return Bound(m, obj)
